@@ -34,10 +34,10 @@
                                                                                                  if_modified_since_plus_variant_refuted
       stream_body: the whole loop (pos += read, &buf[..buf_end])        Panics.stream_loop       stream_body_never_panics
       url_crawl::LinkIter (data[pos+1..], quote[..ending], data[..=pos],
-        data[advance..]; file / upstream content)                        UrlCrawl.link_iter       link_iter_never_panics; REPAIRED (fa13a8b),
+        data[advance..]; file / upstream content)                        UrlCrawl.link_iter       link_iter_never_panics; REPAIRED (4e78a7d),
                                                                                                  link_iter_v0_refuted
       kvarn-extensions templates: extract_templates / handle_template (file.slice x2,
-        unwrap x5, file[start..position - 1]; file content)             Templates.render         template_engine_never_panics; REPAIRED (fe1115a),
+        unwrap x5, file[start..position - 1]; file content)             Templates.render         template_engine_never_panics; REPAIRED (176c67e),
                                                                                                  template_engine_v0_refuted
       is_part_of_origin / check_cors_request                            Cors (total functions)   stage of request_path
       http, time, moka, tokio, compressors, other extensions            not modelled             exploration run only *)
